@@ -85,6 +85,7 @@ def raise_transition(ctx, p):
 class StepLoop(FunctionContract):
     prop = "C01"
     exc_hierarchy = {"FailStepException": ["Exception"], "TransitionEvent": ["Exception"], "UserException": ["Exception"]}
+    arbitrary_exception_classes = ("UserException",)      # of any class but the stepper's own signals
     prune_quantified = False
     kind = None     # "interpreter" | "generated"
 
@@ -367,6 +368,7 @@ class SingleStepInterp(FunctionContract):
     relpath = "dagrt/exec_numpy.py"
     qualname = "NumpyInterpreter.run_single_step"
     exc_hierarchy = {"BodyException": ["Exception"]}
+    arbitrary_exception_classes = ("BodyException",)
     list_literals_as_tuples = True
     prune_quantified = False
 
@@ -510,6 +512,7 @@ class SingleStepGenerated(FunctionContract):
     qualname = "CodeGenerator._emit_run_single_step"
     template_marker = "phase_transition_table"
     exc_hierarchy = {"BodyException": ["Exception"]}
+    arbitrary_exception_classes = ("BodyException",)
 
     def __init__(self):
         self.np0 = z3.Const("next_phase0", PName)
